@@ -52,10 +52,12 @@ Needs(c, off, len) ==
   ELSE {i \in DOMAIN LeafKeys(c) : i >= LeafOf(off) /\ i <= LeafOf(Min(off + len, Len(c)) - 1)}
 
 Offsets(c) == {0, 1, L - 1, L, L + 1, 2 * L, Len(c) - 1, Len(c)} \cap 0..Len(c)
-ReadAts(c, rootDamaged, damagedLeaves) ==
+\* (trailing: the damage only appends bytes after the stored ones - a read that returns exactly the stored
+\*  bytes does not return corrupted content; returning the appended bytes would)
+ReadAts(c, rootDamaged, damagedLeaves, trailing) ==
   { [off |-> o, len |-> n,
      allowed |-> IF rootDamaged THEN {"error"}
-                 ELSE IF Needs(c, o, n) \cap damagedLeaves # {} THEN {"error"}
+                 ELSE IF Needs(c, o, n) \cap damagedLeaves # {} THEN (IF trailing THEN {"exact", "error"} ELSE {"error"})
                  ELSE IF damagedLeaves # {} THEN {"exact", "error"}
                  ELSE {"exact"}] : o \in Offsets(c), n \in {1, L, 2 * L} }
 
@@ -64,11 +66,12 @@ Case(c, target, kind, arg) ==
       idx == IF isRoot THEN 0 ELSE CHOOSE i \in DOMAIN LeafKeys(c) : LeafKeys(c)[i] = target
       real == IF isRoot THEN TRUE ELSE LeafReallyDamaged(c, target, kind, arg)
       dl == IF isRoot \/ ~real THEN {} ELSE {idx}
+      trailing == ~isRoot /\ kind = "extend"
   IN [content |-> c, target |-> target, isroot |-> isRoot, leaf |-> idx, kind |-> kind, arg |-> arg,
       damaged |-> real,
       \* reading the whole object needs every blob
-      whole |-> IF real THEN {"error"} ELSE {"exact"},
-      readats |-> ReadAts(c, isRoot, dl)]
+      whole |-> IF real THEN (IF trailing THEN {"exact", "error"} ELSE {"error"}) ELSE {"exact"},
+      readats |-> ReadAts(c, isRoot, dl, trailing)]
 
 \* the writer variables of Cafs are not used here
 Idle == /\ content = <<>> /\ cc = 1 /\ delivered = 0 /\ pending = 0 /\ buf = 0 /\ started = 0
@@ -99,6 +102,6 @@ Dump == stage = "done" =>
 \* and a ranged read is only ever allowed to succeed with the exact bytes
 OracleSane ==
   stage = "done" =>
-    /\ case.damaged => case.whole = {"error"}
+    /\ (case.damaged /\ case.kind # "extend") => case.whole = {"error"}
     /\ \A r \in case.readats : r.allowed \subseteq {"exact", "error"} /\ r.allowed # {}
 =============================================================================
